@@ -1,0 +1,43 @@
+//go:build verif
+
+package loader
+
+import (
+	"context"
+
+	"github.com/compose-spec/compose-go/v2/consts"
+)
+
+// Thin exported wrappers for the C01 (totality) verification harness.  Compiled only with the `verif` build tag.
+
+// VerifConvertToStringKeys drives convertToStringKeysRecursive on an arbitrary decoded YAML value.
+func VerifConvertToStringKeys(v any) (any, error) { return convertToStringKeysRecursive(v, "") }
+
+// VerifCycleTrackerRun adds the references one after the other to a fresh cycleTracker and
+// returns how many were accepted and the error of the first refusal (nil if none).
+func VerifCycleTrackerRun(refs [][2]string) (int, error) {
+	ct := &cycleTracker{}
+	for i, r := range refs {
+		next, err := ct.Add(r[0], r[1])
+		if err != nil {
+			return i, err
+		}
+		ct = next
+	}
+	return len(refs), nil
+}
+
+// VerifApplyExtends runs ApplyExtends with a fresh tracker, as loadYamlModel does, for a file named filename.
+func VerifApplyExtends(ctx context.Context, filename string, dict map[string]any, opts *Options) error {
+	ctx = context.WithValue(ctx, consts.ComposeFileKey{}, filename)
+	return ApplyExtends(ctx, dict, opts, &cycleTracker{})
+}
+
+// VerifOmitEmptyPatterns exposes the omitempty table.
+func VerifOmitEmptyPatterns() []string {
+	var l []string
+	for _, p := range omitempty {
+		l = append(l, string(p))
+	}
+	return l
+}
